@@ -105,7 +105,7 @@ func variantsOf(b int) int {
 	case "html-template-lexer":
 		return 6
 	case "two-lexers":
-		return 12
+		return 18
 	}
 	return 2
 }
